@@ -8,7 +8,8 @@ case:  `d=<n> k=<val|exc|base|self> ig=<0|1> D=<n> c=<n|->`
         c  instant at which `cancel()` is called on the caller (`-` = never)
 out:   `out=<res|exc|base|timeout|cancelled|hang>@<t|-> at=<fn status when the caller got its outcome>
         end=<finished|cancelled|running> seen=<cancellations delivered inside the function>
-        pend=<tasks not done at final quiescence> handler=<loop exception handler calls>`
+        pend=<tasks not done at final quiescence> handler=<loop exception handler calls>
+        tm=<wrapper timers still armed once caller and function are both done>`
 
 The environment events (function's delay over, deadline, caller cancellation) happen at their
 virtual instants in increasing order; everything the loop does in between takes no time.  At one
@@ -30,6 +31,8 @@ structure D where
   ended : Option String := none     -- how the function ended
   outAt : Option Nat := none        -- instant at which the caller resumed
   atStatus : Option String := none  -- function status at the end of that instant
+  tmAt : Option Nat := none         -- timers of the wrapper still armed at the end of the first
+                                    -- instant at which caller and function are both done
 
 def fnStatus (d : D) : String :=
   match d.ended with
@@ -72,7 +75,7 @@ def render (d : D) : String :=
   let pend := (match d.s.caller with | .waiting _ => 1 | .done _ => 0)
             + (match d.s.tsk with | .running _ _ => 1 | _ => 0)
   let fin := match d.ended with | some e => e | none => "running"
-  s!"{out} at={match d.atStatus with | some a => a | none => "-"} end={fin} seen={d.seen} pend={pend} handler=0"
+  s!"{out} at={match d.atStatus with | some a => a | none => "-"} end={fin} seen={d.seen} pend={pend} handler=0 tm={match d.tmAt with | some n => toString n | none => "-"}"
 
 def removeOne (e : Ext) : List Ext → List Ext
   | [] => []
@@ -88,6 +91,8 @@ def explore : Nat → D → Nat → List Ext → List (Nat × List Ext) → List
     if viaLbl.isEmpty && viaExt.isEmpty then
       -- this instant is quiescent
       let d := if d.outAt.isSome && d.atStatus.isNone then { d with atStatus := some (fnStatus d) } else d
+      let d := if d.outAt.isSome && d.ended.isSome && d.tmAt.isNone
+               then { d with tmAt := some (if d.s.tmr = .armed then 1 else 0) } else d
       match later with
       | [] => [render d]
       | (t, es) :: rest => explore fuel d t es rest
@@ -123,6 +128,11 @@ def runCase (line : String) : String :=
       let res := match evs with
         | (0, es) :: rest => explore 200 d0 0 es rest
         | _ => explore 200 d0 0 [] evs
+      -- a cancellation at the very instant of the call may also reach the caller before the
+      -- wrapper has created anything: the function then never runs
+      let res := if c = "0" then
+          ("out=cancelled@0 at=unstarted end=unstarted seen=0 pend=0 handler=0 tm=0" :: res).eraseDups
+        else res
       let sorted := (res.toArray.qsort (· < ·)).toList
       match sorted with
       | [one] => one
